@@ -23,6 +23,12 @@ ANCHORS = ["hy.core.result_macros:compile_logical_or_and_and_operator"]
 ASSUMPTIONS = ["CPython 3.12.1 truthiness/identity semantics",
                "closed-form oracle: index of first falsy (and) / truthy (or) operand else last"]
 
+MANIFEST = {
+    "text": "Every (and ...)/(or ...) program of arity 0-4 over four operand shapes x truthiness x operator is executed (exhaustive), arity 5-8 sampled, in five usage contexts; the returned object is compared by identity and the operand-evaluation trace exactly with a closed-form oracle. Exploration: held on the programs run, nothing beyond.",
+    "note": "Trusted: CPython 3.12.1 truthiness; the closed-form oracle (first falsy/truthy operand else last; left-to-right trace). Bounds: arity <= 8, nesting <= 3.",
+    "technique": "runtime monitoring: trace logger on every operand + identity of returned object vs closed-form oracle, exhaustive small arities",
+}
+
 SHAPES = ["var", "eff", "stmt", "nest"]
 CONTEXTS = ["used", "discarded", "iftest", "callarg", "infn"]
 FALSY = ["[]", "0", '""', "None", "False"]
